@@ -1,6 +1,7 @@
 """Type-directed generator of valid barectf 3 configurations (as YAML text) and of argument
 values for their tracing/opening functions.  Every random choice comes from the `random.Random`
 passed in."""
+import re
 import yaml
 
 HEADER = '--- !<tag:barectf.org,2020/3/config>\n'
@@ -149,7 +150,7 @@ def gen_feature_uint(rnd, minsize=1, sizes=None):
 def gen_config(rnd, ndst=None, profile='layout'):
     """Returns (yaml_text, info)."""
     cfg, info = gen_config_tree(rnd, ndst, profile)
-    text = HEADER + yaml.safe_dump(cfg, sort_keys=False, default_flow_style=False)
+    text = HEADER + yaml.dump(cfg, Dumper=QuotingDumper, sort_keys=False, default_flow_style=False)
     return text, info
 
 
@@ -304,6 +305,11 @@ def _gen_config_tree(rnd, ndst, profile):
     cfg = {'trace': {'type': tt}}
     if rnd.random() < 0.3:
         cfg['trace']['environment'] = {'a': 1, 'b': 'x"y\\z', 'neg': -5}
+        # string values a YAML resolver may take for something else (other integer spellings, booleans, nulls, dates,
+        # sexagesimal numbers, indicators): they are strings in the document and must stay strings in whatever the front
+        # end prints
+        for i, v in enumerate(rnd.sample(TRICKY_STRINGS, rnd.choice([0, 1, 2, 4]))):
+            cfg['trace']['environment'][f't{i}'] = v
     opts = {}
     r_p = rnd.random()
     if r_p < 0.3:
@@ -319,6 +325,30 @@ def _gen_config_tree(rnd, ndst, profile):
     if opts:
         cfg['options'] = {'code-generation': opts}
     return cfg, {'ndst': ndst, 'names': names}
+
+
+class QuotingDumper(yaml.SafeDumper):
+    """writes every string that is not plainly a word in double quotes, as a careful author does: what such a string
+    means must not depend on which scalars the reader's resolver takes for numbers, booleans, dates or nulls"""
+
+
+_PLAIN_WORD = re.compile(r'^[A-Za-z_$][A-Za-z0-9_$]*([ .-][A-Za-z_][A-Za-z0-9_]*)*$')
+_RESOLVED_WORDS = {'yes', 'no', 'on', 'off', 'true', 'false', 'null', 'y', 'n'}
+
+
+def _repr_str(dumper, data):
+    if _PLAIN_WORD.match(data) and data.lower() not in _RESOLVED_WORDS:
+        return dumper.represent_scalar('tag:yaml.org,2002:str', data)
+    return dumper.represent_scalar('tag:yaml.org,2002:str', data, style='"')
+
+
+QuotingDumper.add_representer(str, _repr_str)
+
+
+TRICKY_STRINGS = ['0o644', '0o17', '0b101', '1_000', '0x1F', '012', '+1', '-0', '0.', '1e3', '.5', '.inf', '.nan', 'yes', 'No',
+                  'on', 'OFF', 'true', 'False', '~', 'null', 'NULL', '2001-01-01', '2001-12-14t21:59:43.10-05:00', '1:30',
+                  '190:20:30', '=', '<<', '- x', ': y', 'a: b', '#c', '{a', '[b', '!t', '&a', '*a', '|', '>', '%d', '@x',
+                  '`y`', ' lead', 'trail ', '', "it's", '0O17', '0o8', '1__0', '0b', '0x', '1,000']
 
 
 # ---- argument values ---------------------------------------------------------------------
